@@ -469,9 +469,10 @@ def judge_call(case, wit, field, seq, offered, chunk_b, chunk_t, raised, tolerat
     exp, must = case["exp_tree"], case["must"]
     if raised:
         return "violation", "the logging call raised %s" % raised
-    if not offered or offered[0].get("message_type") != MSG_TYPE or offered[0].get("seq") != seq:
-        return "violation", "the other destination did not receive the message first (it got %s)" % _short(offered)
-    reports = offered[1:]
+    mine = [m for m in offered if m.get("message_type") == MSG_TYPE]
+    if len(mine) != 1 or mine[0].get("seq") != seq:
+        return "violation", "the other destination was not offered the message exactly once (it got %s)" % _short(offered)
+    reports = [m for m in offered if m is not mine[0]]
     if any(m.get("message_type") != FAILURE_TYPE for m in reports):
         return "violation", "unexpected extra messages were offered: %s" % _short([m.get("message_type") for m in reports])
     decoded = {}
@@ -506,8 +507,8 @@ def judge_call(case, wit, field, seq, offered, chunk_b, chunk_t, raised, tolerat
         return "violation", "%d lines were written for one message" % len(own)
     if not own:
         # refused: no bytes for the message, each refusing file destination reported once
-        if len(reports) != 2:
-            return "violation", "no line was written for the message by either file but %d destination failure(s) were reported instead of 2" % len(reports)
+        if not 1 <= len(reports) <= 2:      # (that EACH refusing destination is reported once is C08's clause)
+            return "violation", "no line was written for the message by either file and %d destination failures were reported" % len(reports)
         if must:
             if "time_aware" in tolerate and "time_aware" in leaves_of(case["tree"]):
                 return "known:time_aware", "a time object with tzinfo is refused (%s)" % reports[0].get("reason")
@@ -519,7 +520,7 @@ def judge_call(case, wit, field, seq, offered, chunk_b, chunk_t, raised, tolerat
     if lines[0] is not own[0]:
         return "violation", "lines out of order"
     dec = own[0]
-    msg = offered[0]
+    msg = mine[0]
     if set(dec) != set(msg):
         return "violation", "the line's fields %r differ from the message's %r" % (sorted(dec), sorted(msg))
     for k in msg:
